@@ -47,6 +47,16 @@ func (e *Eng) evalSpec(st *State, x *SExpr, env map[string]*Val, old map[string]
 				return constToVal(e, types.TypeAndValue{Type: c.Type(), Value: c.Val()})
 			}
 		}
+		// a clause of a callee's contract is written in the callee's package: resolve its constants there
+		if e.specPkgPath != "" {
+			if p := e.findPkg(e.specPkgPath); p != nil {
+				if obj := p.Scope().Lookup(x.Name); obj != nil {
+					if c, ok := obj.(*types.Const); ok {
+						return constToVal(e, types.TypeAndValue{Type: c.Type(), Value: c.Val()})
+					}
+				}
+			}
+		}
 		panic(fmt.Sprintf("spec: unknown identifier %q", x.Name))
 	case SUnary:
 		v := e.evalSpec(st, x.Args[0], env, old)
@@ -490,4 +500,24 @@ func (e *Eng) zeroPred(v *Val) string {
 		return "(and " + strings.Join(parts, " ") + ")"
 	}
 	return "true"
+}
+
+func (e *Eng) findPkg(path string) *types.Package {
+	var found *types.Package
+	var visit func(p *types.Package, seen map[*types.Package]bool)
+	visit = func(p *types.Package, seen map[*types.Package]bool) {
+		if seen[p] || found != nil {
+			return
+		}
+		seen[p] = true
+		if p.Path() == path {
+			found = p
+			return
+		}
+		for _, imp := range p.Imports() {
+			visit(imp, seen)
+		}
+	}
+	visit(e.pkg.Types, map[*types.Package]bool{})
+	return found
 }
